@@ -14,6 +14,12 @@ use crate::vm::state::{MAGICAL_DUMP_VAR, State};
 use crate::{Context, Tera};
 
 const MAX_COMPONENT_RECURSION_DEPTH: usize = 20;
+/// Include cycles are refused when templates are added, except the ones going through a block
+/// of a parent template (`super()`): this is the backstop for those when rendering
+const MAX_INCLUDE_DEPTH: usize = 20;
+/// How many blocks can be rendering inside each other. A child template can nest a block in an
+/// ancestor of that block, which would otherwise recurse forever
+const MAX_BLOCK_DEPTH: usize = 40;
 
 pub(crate) struct VirtualMachine<'tera> {
     tera: &'tera Tera,
@@ -21,6 +27,7 @@ pub(crate) struct VirtualMachine<'tera> {
     /// Only used when rendering a single component, to decide whether to auto-escape it or not
     autoescape_override: Option<bool>,
     component_recursion_depth: usize,
+    include_depth: usize,
 }
 
 impl<'tera> VirtualMachine<'tera> {
@@ -30,6 +37,7 @@ impl<'tera> VirtualMachine<'tera> {
             template,
             autoescape_override: None,
             component_recursion_depth: 0,
+            include_depth: 0,
         }
     }
 
@@ -43,6 +51,7 @@ impl<'tera> VirtualMachine<'tera> {
             template,
             autoescape_override: Some(autoescape),
             component_recursion_depth: 0,
+            include_depth: 0,
         }
     }
 
@@ -569,6 +578,12 @@ impl<'tera> VirtualMachine<'tera> {
                             block_name, self.template.name
                         )));
                     };
+                    if state.blocks.len() >= MAX_BLOCK_DEPTH {
+                        return Err(Error::message(format!(
+                            "Maximum block nesting depth exceeded while rendering block '{}' in template '{}'.",
+                            block_name, self.template.name
+                        )));
+                    }
                     let block_chunk = &block_lineage[0];
                     let old_chunk = state.chunk.replace(block_chunk);
                     state.blocks.push((block_name, block_lineage, 0));
@@ -941,6 +956,7 @@ impl<'tera> VirtualMachine<'tera> {
             template: self.template,
             autoescape_override: self.autoescape_override,
             component_recursion_depth: depth,
+            include_depth: self.include_depth,
         };
 
         let mut state = State::new_with_chunk(&context, chunk);
@@ -957,12 +973,19 @@ impl<'tera> VirtualMachine<'tera> {
         state: &State<'tera>,
         output: &mut impl Write,
     ) -> TeraResult<()> {
+        let depth = self.include_depth + 1;
+        if depth > MAX_INCLUDE_DEPTH {
+            return Err(Error::message(format!(
+                "Maximum include depth exceeded while including '{name}'."
+            )));
+        }
         let tpl = self.tera.must_get_template(name)?;
         let vm = Self {
             tera: self.tera,
             template: tpl,
             autoescape_override: self.autoescape_override,
             component_recursion_depth: self.component_recursion_depth,
+            include_depth: depth,
         };
 
         // We create a dummy state for variables to be written to, but we don't keep it around
